@@ -1,0 +1,92 @@
+//go:build verif
+
+package veriflaws
+
+import (
+	"github.com/csgura/fp"
+	"github.com/csgura/fp/internal/verifspec"
+)
+
+// Law predicates about fp.Ord instances (property C10).
+
+// ExactlyOne of three propositions holds.
+func ExactlyOne(p, q, r bool) bool {
+	return (p && !q && !r) || (!p && q && !r) || (!p && !q && r)
+}
+
+// OrdTrichotomy: exactly one of Less(a,b), Less(b,a), Eqv(a,b).
+func OrdTrichotomy[T any](o fp.Ord[T]) bool {
+	return verifspec.Forall(func(a, b T) bool { return ExactlyOne(o.Less(a, b), o.Less(b, a), o.Eqv(a, b)) })
+}
+
+// OrdLessTrans: Less is transitive.
+func OrdLessTrans[T any](o fp.Ord[T]) bool {
+	return verifspec.Forall(func(a, b, c T) bool { return !(o.Less(a, b) && o.Less(b, c)) || o.Less(a, c) })
+}
+
+// OrdCompareConsistent: the sign of Compare says Less / Eqv / greater.
+func OrdCompareConsistent[T any](o fp.Ord[T]) bool {
+	return verifspec.Forall(func(a, b T) bool {
+		return (o.Compare(a, b) < 0) == o.Less(a, b) &&
+			(o.Compare(a, b) == 0) == o.Eqv(a, b) &&
+			(o.Compare(a, b) > 0) == o.Less(b, a)
+	})
+}
+
+// OrdLessEqConsistent: LessEq is Less or Eqv.
+func OrdLessEqConsistent[T any](o fp.Ord[T]) bool {
+	return verifspec.Forall(func(a, b T) bool { return o.LessEq(a, b) == (o.Less(a, b) || o.Eqv(a, b)) })
+}
+
+// OrdMinMaxConsistent: Min / Max pick the smaller / larger argument; on a tie
+// they return the two arguments in some order.
+func OrdMinMaxConsistent[T any](o fp.Ord[T]) bool {
+	return verifspec.Forall(func(a, b T) bool {
+		return (!o.Less(a, b) || (same(o.Min(a, b), a) && same(o.Max(a, b), b))) &&
+			(!o.Less(b, a) || (same(o.Min(a, b), b) && same(o.Max(a, b), a))) &&
+			((same(o.Min(a, b), a) && same(o.Max(a, b), b)) || (same(o.Min(a, b), b) && same(o.Max(a, b), a)))
+	})
+}
+
+func same[T any](x, y T) bool {
+	return verifspec.Eq(verifspec.W(x), verifspec.W(y))
+}
+
+// OrdLaws: a strict total order (up to the instance's own Eqv) with all
+// derived operations consistent.
+func OrdLaws[T any](o fp.Ord[T]) bool {
+	return EqLaws[T](o) && OrdTrichotomy(o) && OrdLessTrans(o) &&
+		OrdCompareConsistent(o) && OrdLessEqConsistent(o) && OrdMinMaxConsistent(o)
+}
+
+// OrdCore: the part of OrdLaws that the combinators of package ord rely on
+// (they never call LessEq / Min / Max of a component instance).
+func OrdCore[T any](o fp.Ord[T]) bool {
+	return EqLaws[T](o) && OrdTrichotomy(o) && OrdLessTrans(o) && OrdCompareConsistent(o)
+}
+
+// StrictOrderFor: less is a strict total order whose ties are exactly e.Eqv
+// (hypothesis of ord.New).
+func StrictOrderFor[T any](e fp.Eq[T], less func(a, b T) bool) bool {
+	return EqLaws(e) &&
+		verifspec.Forall(func(a, b T) bool { return ExactlyOne(less(a, b), less(b, a), e.Eqv(a, b)) }) &&
+		verifspec.Forall(func(a, b, c T) bool { return !(less(a, b) && less(b, c)) || less(a, c) })
+}
+
+// StrictWeakOrder: less is asymmetric and transitive and so is "neither is
+// less" (hypothesis of as.Ord / fp.LessFunc).
+func StrictWeakOrder[T any](less func(a, b T) bool) bool {
+	return verifspec.Forall(func(a, b T) bool { return !(less(a, b) && less(b, a)) }) &&
+		verifspec.Forall(func(a, b, c T) bool { return !(less(a, b) && less(b, c)) || less(a, c) }) &&
+		verifspec.Forall(func(a, b, c T) bool {
+			return !(!less(a, b) && !less(b, a) && !less(b, c) && !less(c, b)) || (!less(a, c) && !less(c, a))
+		})
+}
+
+// CompareLaws: cmp is a three-way comparison (hypothesis of ord.FromCompare /
+// fp.CompareFunc): antisymmetric in sign, transitive on "<0" and on "==0".
+func CompareLaws[T any](cmp func(a, b T) int) bool {
+	return verifspec.Forall(func(a, b T) bool { return (cmp(a, b) < 0) == (cmp(b, a) > 0) }) &&
+		verifspec.Forall(func(a, b, c T) bool { return !(cmp(a, b) < 0 && cmp(b, c) < 0) || cmp(a, c) < 0 }) &&
+		verifspec.Forall(func(a, b, c T) bool { return !(cmp(a, b) == 0 && cmp(b, c) == 0) || cmp(a, c) == 0 })
+}
